@@ -499,7 +499,11 @@ class DictSerializer:
         if isinstance(address, DebugAddress):
             return {"kind": "fixed", "symbol_id": address.symbol_id}
         elif isinstance(address, FpOffsetAddress):
-            return {"kind": "fprel", "offset": address.offset.offset}
+            return {
+                "kind": "fprel",
+                "offset": address.offset.offset,
+                "size": address.offset.size,
+            }
         elif isinstance(address, UnknownAddress):
             return {"kind": "unknown"}
         else:  # pragma: no cover
@@ -589,7 +593,9 @@ class DictDeserializer:
         if kind == "fixed":
             return DebugAddress(x["symbol_id"])
         elif kind == "fprel":
-            return FpOffsetAddress(StackLocation(x["offset"], 1))
+            return FpOffsetAddress(
+                StackLocation(x["offset"], x.get("size", 1))
+            )
         elif kind == "unknown":
             return UnknownAddress()
         else:  # pragma: no cover
